@@ -15,7 +15,7 @@
 from datetime import datetime, timedelta
 import time
 
-from cassandra.query import FETCH_SIZE_UNSET
+from cassandra.query import FETCH_SIZE_UNSET, ValueSequence
 from cassandra.cqlengine import columns
 from cassandra.cqlengine import UnicodeMixin
 from cassandra.cqlengine.functions import QueryValue
@@ -131,7 +131,8 @@ class WhereClause(BaseClause):
 
     def update_context(self, ctx):
         if isinstance(self.operator, InOperator):
-            ctx[str(self.context_id)] = InQuoter(self.value)
+            # a ValueSequence is rendered by the session's Encoder, element by element
+            ctx[str(self.context_id)] = ValueSequence(self.value)
         else:
             self.query_value.update_context(ctx)
 
